@@ -142,7 +142,8 @@ impl Recorder {
 
     pub fn write(&self, ctx: &Ctx) -> std::io::Result<()> {
         std::fs::create_dir_all(&ctx.out)?;
-        let base = ctx.out.join(format!("shard-{}", ctx.shard));
+        // one file per (workload, shard): a later stage of the same check must not overwrite an earlier one
+        let base = ctx.out.join(format!("shard-{}-{}", ctx.id, ctx.shard));
         // hashes as binary u64 LE
         let mut hb = Vec::with_capacity(self.hashes.len() * 8);
         for h in &self.hashes {
